@@ -338,6 +338,10 @@ def run(ck, fx, cg, tier, feeny=False, rule="R9.table"):
             if any(mm.startswith("debug_assert") for mm in user_macros_of(n)) and n.get("k") in ("If", "Call"):
                 ck.ob("R9.nocfg", "%s|debug_assert" % hb["path"], False, loc(n), "debug_assert*! in VM code")
     ck.ob("R9.profile", "no profile-dependent arithmetic on FML integers in the VM", n_sites == 0, "", "%d plain overflow-sensitive i32 operation(s) in %d reachable functions" % (n_sites, len(reach)))
+    # ---------------------------------------------------------------- the operation is executed at all
+    # "fails the program" is an effect: an operator application must be compiled whether or not its value is used
+    from .c10 import _no_elision
+    _no_elision(ck, fx, rule="R9.executed", only={"CallMethod"}, floor=1)
     # wrapping forms are present where S4 says wrapping (positive evidence for + - *)
     # ---------------------------------------------------------------- arity
     from . import c14_templates
